@@ -124,6 +124,9 @@ func genCut(seed uint64, prop string) *Scenario {
 		sc.Steps = append(sc.Steps, prepSteps(g)...)
 	}
 	nf := 1 + r.IntN(4)
+	if deepSeed(seed) && r.IntN(3) == 0 {
+		nf = 4 + r.IntN(6)
+	}
 	elec := [2]uint64{0, 10}
 	for f := 0; f < nf; f++ {
 		if r.IntN(3) == 0 {
